@@ -17,18 +17,19 @@ import (
 )
 
 type scanTables struct {
-	cls        *types.Named
-	scanner    *types.Named
-	matchers   map[string]string // TokenType constant name -> regex source (anchoring stripped)
-	matcherPos map[string]token.Pos
-	names      map[string]string // TokenType constant name -> grammar name
-	order      []string          // scan order (TokenType constant names)
-	scanLoop   *ast.ForStmt
-	scanFD     *ast.FuncDecl
-	foundFD    *ast.FuncDecl  // the per-type matching method used in the case arms
-	tableLoop  *ast.RangeStmt // data-driven scan: the loop over the table of token types
-	orChain    ast.Expr       // scan written as found(A) || found(B) || ...
-	problems   []string
+	cls         *types.Named
+	scanner     *types.Named
+	matchers    map[string]string // TokenType constant name -> regex source (anchoring stripped)
+	matcherPos  map[string]token.Pos
+	names       map[string]string // TokenType constant name -> grammar name
+	order       []string          // scan order (TokenType constant names)
+	scanLoop    *ast.ForStmt
+	scanFD      *ast.FuncDecl
+	foundFD     *ast.FuncDecl  // the per-type matching method used in the case arms
+	tableLoop   *ast.RangeStmt // data-driven scan: the loop over the table of token types
+	tableHelper *ast.FuncDecl  // the unexported method that holds the table loop (nil: the scan loop itself)
+	orChain     ast.Expr       // scan written as found(A) || found(B) || ...
+	problems    []string
 }
 
 func constString(info *types.Info, e ast.Expr) (string, bool) {
@@ -216,58 +217,94 @@ func (c *Ctx) scanTables() *scanTables {
 	}
 	if len(st.order) == 0 {
 		// data-driven form: for _, t := range <table of token types> { if v.found(t) { continue scanning } }
-		ast.Inspect(st.scanLoop.Body, func(x ast.Node) bool {
-			rs, ok := x.(*ast.RangeStmt)
-			if !ok || rs.Value == nil || len(st.order) > 0 {
-				return true
-			}
-			elem := identObj(info, rs.Value)
-			var found *ast.FuncDecl
-			ast.Inspect(rs.Body, func(y ast.Node) bool {
-				if call, ok := y.(*ast.CallExpr); ok && len(call.Args) == 1 && elem != nil && isObj(info, call.Args[0], elem) {
-					if cf := calleeOf(info, call); cf != nil {
-						if d := c.declOf(cf); d != nil {
-							found = d
+		var bodies []ast.Node
+		bodies = append(bodies, st.scanLoop.Body)
+		var helpers func(body ast.Node, depth int)
+		helpers = func(body ast.Node, depth int) {
+			ast.Inspect(body, func(x ast.Node) bool {
+				if call, ok := x.(*ast.CallExpr); ok && depth < 2 {
+					if cf := calleeOf(info, call); cf != nil && !cf.Exported() {
+						if d := c.declOf(cf); d != nil && d.Body != nil && d != st.scanFD && c.infoFor(d) == info {
+							bodies = append(bodies, d.Body)
+							st.tableHelper = d
+							helpers(d.Body, depth+1)
 						}
 					}
 				}
 				return true
 			})
-			if found == nil {
-				return true
+		}
+		helpers(st.scanLoop.Body, 0)
+		tableHelperOf := map[ast.Node]*ast.FuncDecl{}
+		for _, f := range c.Pkgs["cdcn"].Syntax {
+			for _, d := range f.Decls {
+				if fd, ok := d.(*ast.FuncDecl); ok && fd.Body != nil {
+					tableHelperOf[fd.Body] = fd
+				}
 			}
-			var lit *ast.CompositeLit
-			switch t := ast.Unparen(rs.X).(type) {
-			case *ast.CompositeLit:
-				lit = t
-			case *ast.Ident:
-				if v, ok := info.Uses[t].(*types.Var); ok {
-					for _, f := range c.Pkgs["cdcn"].Syntax {
-						ast.Inspect(f, func(z ast.Node) bool {
-							if vs, ok := z.(*ast.ValueSpec); ok {
-								for i, nm := range vs.Names {
-									if info.Defs[nm] == v && i < len(vs.Values) {
-										if l, ok := ast.Unparen(vs.Values[i]).(*ast.CompositeLit); ok {
-											lit = l
+		}
+		st.tableHelper = nil
+		for _, body := range bodies {
+			body := body
+			ast.Inspect(body, func(x ast.Node) bool {
+				rs, ok := x.(*ast.RangeStmt)
+				if !ok || rs.Value == nil || len(st.order) > 0 {
+					return true
+				}
+				if body != ast.Node(st.scanLoop.Body) {
+					st.tableHelper = tableHelperOf[body]
+				}
+				elem := identObj(info, rs.Value)
+				var found *ast.FuncDecl
+				ast.Inspect(rs.Body, func(y ast.Node) bool {
+					if call, ok := y.(*ast.CallExpr); ok && len(call.Args) == 1 && elem != nil && isObj(info, call.Args[0], elem) {
+						if cf := calleeOf(info, call); cf != nil {
+							if d := c.declOf(cf); d != nil {
+								found = d
+							}
+						}
+					}
+					return true
+				})
+				if found == nil {
+					return true
+				}
+				var lit *ast.CompositeLit
+				switch t := ast.Unparen(rs.X).(type) {
+				case *ast.CompositeLit:
+					lit = t
+				case *ast.Ident:
+					if v, ok := info.Uses[t].(*types.Var); ok {
+						for _, f := range c.Pkgs["cdcn"].Syntax {
+							ast.Inspect(f, func(z ast.Node) bool {
+								if vs, ok := z.(*ast.ValueSpec); ok {
+									for i, nm := range vs.Names {
+										if info.Defs[nm] == v && i < len(vs.Values) {
+											if l, ok := ast.Unparen(vs.Values[i]).(*ast.CompositeLit); ok {
+												lit = l
+											}
 										}
 									}
 								}
-							}
-							return true
-						})
+								return true
+							})
+						}
 					}
 				}
-			}
-			if lit == nil {
+				if lit == nil {
+					return true
+				}
+				st.foundFD = found
+				st.tableLoop = rs
+				for _, el := range lit.Elts {
+					st.order = append(st.order, exprStr(el))
+				}
 				return true
-			}
-			st.foundFD = found
-			st.tableLoop = rs
-			for _, el := range lit.Elts {
-				st.order = append(st.order, exprStr(el))
-			}
-			return true
-		})
+			})
+		}
+		if len(st.order) == 0 {
+			st.tableHelper = nil
+		}
 	}
 	return st
 }
